@@ -9,6 +9,7 @@ import (
 	"fmt"
 	"io"
 	"strings"
+	"sync"
 	"time"
 
 	"github.com/PowerDNS/lightningstream/snapshot"
@@ -931,6 +932,68 @@ func areaCodec(r *Rng, n int, dir string) (*AreaOut, error) {
 			s.DBIs[0].Entries = append(s.DBIs[0].Entries, gKV{Key: []byte("kkkkkkkk"), Val: []byte("vvvvvvvvvvvvvvvv"), TS: 7})
 		}
 		containerRoundTrip(out, s, "20000 identical entries (compression ratio > 10)")
+	}
+
+	// (7) several snapshots encoded at the same time (two syncers in one process do that): each output decodes
+	// to its own content
+	{
+		out.OracleN++
+		var wg sync.WaitGroup
+		var mu sync.Mutex
+		bad := ""
+		for g := 0; g < 8; g++ {
+			wg.Add(1)
+			go func(g int) {
+				defer wg.Done()
+				s := gSnap{Fmt: 3, Compat: 1, Meta: gMeta{Inst: []byte(fmt.Sprintf("inst-%d", g)), DBName: bytes.Repeat([]byte{byte('a' + g)}, 20+g)}}
+				for d := 0; d < 3+g%3; d++ {
+					s.DBIs = append(s.DBIs, gDBI{Name: []byte(fmt.Sprintf("dbi-%d-%d", g, d)), Flags: uint64(g), Entries: []gKV{{Key: []byte{byte(g)}, Val: bytes.Repeat([]byte{byte(g)}, 10*g+1), TS: uint64(g + 1)}}})
+				}
+				for it := 0; it < 300; it++ {
+					enc := customEncode(s)
+					if enc.Kind != "bytes" {
+						mu.Lock()
+						bad = "encoding failed: " + enc.Kind + " " + enc.Msg
+						mu.Unlock()
+						return
+					}
+					if dec := customDecode(enc.Bytes); dec.Kind != "ok" || !dec.S.eq(s) {
+						mu.Lock()
+						bad = fmt.Sprintf("goroutine %d, iteration %d: its own encoding does not decode to its own content (%s %s)", g, it, dec.Kind, dec.Msg)
+						mu.Unlock()
+						return
+					}
+				}
+			}(g)
+		}
+		wg.Wait()
+		hist(out.Hist, "concurrent-encode")
+		if bad != "" {
+			out.Oracle = append(out.Oracle, OracleFailure{"C07", "concurrent-encode", "8 goroutines encoding different snapshots at the same time: " + bad, nil})
+		}
+	}
+	// (8) a decoded snapshot is a value like any other: appending to one of its DBIs leaves the others alone
+	{
+		out.OracleN++
+		s := gSnap{Fmt: 3, Compat: 1}
+		for d := 0; d < 3; d++ {
+			s.DBIs = append(s.DBIs, gDBI{Name: []byte(fmt.Sprintf("dbi-%d", d)), Entries: []gKV{{Key: []byte("k"), Val: []byte(fmt.Sprintf("value-%d", d)), TS: uint64(d + 1)}}})
+		}
+		enc := customEncode(s)
+		o := guardDec(20*time.Second, func() (gSnap, error) {
+			back := new(snapshot.Snapshot)
+			if err := back.Unmarshal(enc.Bytes); err != nil {
+				return gSnap{}, err
+			}
+			back.Databases[0].Append(snapshot.KV{Key: []byte("added"), Value: bytes.Repeat([]byte("x"), 40), TimestampNano: 9})
+			return contentOf(back)
+		})
+		want := gSnap{Fmt: 3, Compat: 1, DBIs: append([]gDBI{}, s.DBIs...)}
+		want.DBIs[0] = gDBI{Name: s.DBIs[0].Name, Entries: append(append([]gKV{}, s.DBIs[0].Entries...), gKV{Key: []byte("added"), Val: bytes.Repeat([]byte("x"), 40), TS: 9})}
+		hist(out.Hist, "append-to-decoded")
+		if enc.Kind != "bytes" || o.Kind != "ok" || !o.S.eq(want) {
+			out.Oracle = append(out.Oracle, OracleFailure{"C07", "append-to-decoded", "decode a 3-DBI snapshot, Append one entry to the first DBI, read everything back: " + o.Kind + " " + o.Msg + fmt.Sprintf(" (%d DBIs)", len(o.S.DBIs)), nil})
+		}
 	}
 
 	out.Cases = len(cases)
